@@ -570,6 +570,7 @@ def jobs(tier, seed):
         out.append(H.Job("closest-4x3-%s" % prev, job, "closest", 4, 3, prev, split_depth=6, weight=200))
         if not q:
             out.append(H.Job("closest-5x4-%s" % prev, job, "closest", 5, 4, prev, split_depth=8, weight=900))
+            out.append(H.Job("closest-6x3-%s" % prev, job, "closest", 6, 3, prev, split_depth=9, weight=2000))
     for sr in (1.0, 8.0, 1000.0):
         out.append(H.Job("base-%g" % sr, job, "base", sr, weight=5))
     return out
